@@ -284,12 +284,24 @@ def receiver_flag(site, flag='is_auipc_jump'):
     return val
 
 
+_CONSTS = {}
+
+
+def int_of(v):
+    """Integer value of a constant or of a module-level integer constant named in the value, else None."""
+    if is_const(v) and isinstance(v[1], int) and not isinstance(v[1], bool):
+        return v[1]
+    if v[0] == 'name' and isinstance(_CONSTS.get(v[1]), int) and not isinstance(_CONSTS.get(v[1]), bool):
+        return _CONSTS[v[1]]
+    return None
+
+
 def position_offset(site):
     """position argument as (base symbol, additive constant) or None."""
     pos = site.pos
     k = 0
-    while pos[0] == 'bin' and pos[1] in ('+', '-') and is_const(pos[3]) and isinstance(pos[3][1], int):
-        k += pos[3][1] if pos[1] == '+' else -pos[3][1]
+    while pos[0] == 'bin' and pos[1] in ('+', '-') and int_of(pos[3]) is not None:
+        k += int_of(pos[3]) if pos[1] == '+' else -int_of(pos[3])
         pos = pos[2]
     return pos, k
 
@@ -346,8 +358,15 @@ def wrapper_call_sites(facts, wr):
                 for ev2 in p.events[i + 1:]:
                     if ev2[0] == 'setitem' and contains(ev2[3], v):
                         post = additive_const(ev2[3], v)
-                found.append(dict(fn=qual, node=ev[2], item=v[2][w['item']], pos=v[2][w['pos']], wrapper=v[1],
-                                  kind='BAKE' if baked else ('RETURN' if returned else 'PEEK'), post=post, path=p))
+                item_v = v[2][w['item']]
+                flag = None
+                for t, pol, _ in p.conds:
+                    if t == ('attr', item_v, 'is_auipc_jump'):
+                        flag = pol
+                    if t[0] == 'call' and t[1] == 'getattr' and len(t[2]) >= 2 and t[2][0] == item_v and t[2][1] == C('is_auipc_jump'):
+                        flag = pol
+                found.append(dict(fn=qual, node=ev[2], item=item_v, pos=v[2][w['pos']], wrapper=v[1],
+                                  kind='BAKE' if baked else ('RETURN' if returned else 'PEEK'), post=post, path=p, flag=flag))
 
     for fname, fn in facts.funcs.items():
         names = {n.func.id for n in ast.walk(fn) if isinstance(n, ast.Call) and isinstance(n.func, ast.Name)}
@@ -376,6 +395,8 @@ def check_auipc(report, facts, rule_adj, rule_sib):
     """R-auipc.  (a) no additive correction is applied to the *result* of evaluating an immediate that may be %hi/%lo
     (not linear in its argument); the correction belongs in the position argument.  (b) every site that evaluates the
     `imm` of an item which may carry is_auipc_jump agrees with the baking site on the effective evaluation point."""
+    _CONSTS.clear()
+    _CONSTS.update({k: v for k, v in facts.consts.items() if isinstance(v, int)})
     all_sites = eval_sites(facts)
     sites = [s for s in all_sites if s.recv[0] == 'attr' and s.recv[2] == 'imm']
     wr = wrappers(facts, sites)
@@ -394,6 +415,31 @@ def check_auipc(report, facts, rule_adj, rule_sib):
                     if imm is not None and imm[0] == 'new' and imm[1] in ('Lo', 'Hi'):
                         nonlinear = True
     report.count('constructions with is_auipc_jump=True', flagged)
+    # mnemonics of the items built with the flag, and the compression predicates that can ever be applied to such an item
+    auipc_names = set()
+    for r in pa.rows:
+        for val, node in r['app_values']:
+            if val[0] == 'new':
+                f = ctor_fields(facts, val)
+                if f.get('is_auipc_jump') == C(True) and f.get('name') is not None and is_const(f['name']):
+                    auipc_names.add(f['name'][1])
+    relevant_factories = None
+    try:
+        from .comprel import CompRel
+        rel = CompRel(facts)
+        relevant_factories = set()
+        for ru in rel.rules:
+            if ru.name is None or ru.name in auipc_names:
+                relevant_factories.update(fname for _, fname, _ in rel.pa.lifted(ru.key, ru.preds))
+    except AnalysisError:
+        relevant_factories = None
+
+    def never_sees_flagged(fn_qual):
+        """A site inside a compression predicate that no rule applies to an is_auipc_jump mnemonic."""
+        parts = fn_qual.split('.')
+        if relevant_factories is None or len(parts) < 2 or parts[0] != 'transform_compressible':
+            return False
+        return not any(p_ in relevant_factories for p_ in parts[1:])
     # effective (position offset, post correction) for an is_auipc_jump item, per entry site
     entries = []          # (where, k, post, kind, node, fn, note)
     for s in sites:
@@ -402,20 +448,35 @@ def check_auipc(report, facts, rule_adj, rule_sib):
         flag = receiver_flag(s)
         base, k = position_offset(s)
         where = '{}:{}'.format(s.fn, s.node.lineno)
+        if never_sees_flagged(s.fn):
+            report.ok(rule_sib, where + ': predicate is never applied to an is_auipc_jump item')
+            continue
+        f_ = s.path.facts.get(s.recv)
+        if f_ and 'Arithmetic' in f_['isa']:
+            # a plain arithmetic expression does not depend on the evaluation point at all
+            report.ok(rule_sib, where + ': receiver is known to be Arithmetic (position-independent)')
+            continue
         if flag is True or flag is None:
             entries.append((where, k, s.post or 0, s.kind, s.node, s.fn, 'flag known true' if flag else 'flag not consulted'))
     for c in wcalls:
         w = wr[c['wrapper']]
+        if c.get('flag') is False:
+            continue          # on this path the item is known not to be an auipc-based jump
+        if never_sees_flagged(c['fn']):
+            report.ok(rule_sib, '{}:{}: predicate is never applied to an is_auipc_jump item'.format(c['fn'], c['node'].lineno))
+            continue
         base, kc = c['pos'], 0
-        while base[0] == 'bin' and base[1] in ('+', '-') and is_const(base[3]) and isinstance(base[3][1], int):
-            kc += base[3][1] if base[1] == '+' else -base[3][1]
+        while base[0] == 'bin' and base[1] in ('+', '-') and int_of(base[3]) is not None:
+            kc += int_of(base[3]) if base[1] == '+' else -int_of(base[3])
             base = base[2]
         cases = [x for x in w['cases'] if x[0] is True] or [x for x in w['cases'] if x[0] is None]
         for flag, k, post, s in cases:
             if post is None:
                 raise AnalysisError('R-auipc: wrapper {} post-processes the evaluated immediate in a way the rule cannot follow'.format(c['wrapper']))
-            entries.append(('{}:{}'.format(c['fn'], c['node'].lineno), kc + k, (c['post'] or 0) + post, c['kind'], c['node'], c['fn'],
-                            'via {}'.format(c['wrapper'])))
+            note = 'via {}'.format(c['wrapper'])
+            if flag is None and c.get('flag') is None:
+                note = 'flag not consulted'
+            entries.append(('{}:{}'.format(c['fn'], c['node'].lineno), kc + k, (c['post'] or 0) + post, c['kind'], c['node'], c['fn'], note))
     # (a) adjust-after-nonlinear, at every level
     seen = set()
     for where, k, post, kind, node, fn, note in entries:
